@@ -75,7 +75,24 @@ def make(case):
             keys = [k for k in set(szi) | set(szc) if szi.get(k, 0) != 0 or szc.get(k, 0) != 0]
             ctx.check("equal recorded sizes", R.And(*[szi.get(k) == szc.get(k) for k in sorted(keys)]) if keys else True,
                       f"{szi} vs {szc}")
+            if "inner_align" in cfg and not based and not H.has_kind(T, ("leb",)) and not _has_eof(T):
+                # mixed alignment modes at offset 0: the writer pads like the readers skip (a nested aligned structure starts at an
+                # offset inside the dump that need not be a multiple of its alignment)
+                try:
+                    di, dc = vi.dumps(), vc.dumps()
+                    ctx.check("mixed alignment: dump has as many bytes as parsing consumed", len(di) == ti, f"{len(di)} vs {H.show(ti)}")
+                    ctx.check("mixed alignment: both values dump alike", R.bytes_eq(di, dc))
+                except Exception as e:  # noqa: BLE001
+                    ctx.check("mixed alignment: parsed value dumps", False, H.classify(e))
     return run
+
+
+def _has_eof(T):
+    if T[0] == "arr":
+        return T[2] == "EOF" or _has_eof(T[1])
+    if T[0] in ("struct", "union"):
+        return any(_has_eof(f[1]) for f in T[2])
+    return False
 
 
 def make_fallback(case):
@@ -260,5 +277,6 @@ def cases(tier, seed):
             # the nested named structures come from an earlier load() with the other alignment mode, and the structure is
             # parsed at an arbitrary stream position (an aligned structure then pads differently than its size suggests)
             yield dict(c, cfg=dict(cfg, inner_align=not cfg["align"]), based="any", label=c["label"] + "~mixed@any")
+            yield dict(c, cfg=dict(cfg, inner_align=not cfg["align"]), label=c["label"] + "~mixed")
             if cfg["align"]:
                 yield dict(c, cfg=cfg, based="any", label=c["label"] + "@any")
